@@ -27,6 +27,8 @@ type Clause struct {
 	// untagged clause of a contract that serves some property other than the two whole-module sweeps (C18, C20): it is
 	// checked under those properties, and only assumed in the sweeps
 	SkipSweep bool
+	// untagged clause of a contract with a `serves` line: checked under the served properties only (assumed elsewhere)
+	OnlyUnder []string
 }
 
 type Contract struct {
